@@ -137,3 +137,8 @@ func init() {
 	AddControl(Control{ID: "c06-wrapguard-text-bits", Prop: "C06", Rule: "C06.wrapguard", File: "pkg/decode/read.go",
 		Old: "	if int64(nBytes) > bytesLeft {", New: "	if int64(nBytes)*8 > d.BitsLeft() {", ExpectKey: "(*pkg/decode.D).tryText|guard#1"})
 }
+
+func init() {
+	AddControl(Control{ID: "c06-forceeq-mpeg-version", Prop: "C06", Rule: "C06.forceeq", File: "format/mpeg/mp3_frame.go",
+		Old: "d.Fatalf(\"Unsupported mpeg version\")", New: "d.Errorf(\"Unsupported mpeg version\")", ExpectKey: "format/mpeg.frameDecode$1|mpegVersionNr==0"})
+}
